@@ -13,7 +13,7 @@ use std::collections::{BTreeMap, BTreeSet};
 use std::path::Path;
 
 const PROPERTY: &str = "C16";
-pub const FAULTS: [&str; 5] = ["build_fail", "signal", "garbage", "empty_fail", "huge"];
+pub const FAULTS: [&str; 7] = ["build_fail", "signal", "garbage", "empty_fail", "huge", "ok_then_signal", "ok_then_exit1"];
 
 #[derive(Serialize, Deserialize, Clone, Debug, PartialEq)]
 pub struct TestFn {
@@ -48,6 +48,10 @@ pub struct Scn {
     pub faults: BTreeMap<String, String>,
     pub no_cargo: bool,
     pub order: Vec<usize>,
+    /// directories between the working directory and the project ("" | ".ci/" | "target/" | "node_modules/dep/"): the
+    /// exclusion rules are about directories found *below* the given path, not about how the path itself is spelled
+    #[serde(default)]
+    pub root_prefix: String,
 }
 
 fn render_file(f: &TestFile) -> String {
@@ -216,6 +220,7 @@ pub fn gen_scn(seed: u64) -> Scn {
         faults: BTreeMap::new(),
         no_cargo: false,
         order,
+        root_prefix: r.pick(&["", "", "", ".ci/", "target/", "node_modules/dep/", "ws/"]).to_string(),
     }
 }
 
@@ -363,7 +368,9 @@ fn feature_string(t: &TestFn, scn: &Scn) -> String {
 }
 
 pub fn run_scn(scn: &Scn, scratch: &Path, tag: &str) -> RunOut {
-    let root = scratch.join(tag);
+    let cwd = scratch.join(tag);
+    let root = cwd.join(format!("{}proj", scn.root_prefix));
+    let _ = std::fs::remove_dir_all(&cwd);
     tree_of(scn).materialise(&root, Some(&scn.order));
     let fakebin = if scn.no_cargo {
         let d = scratch.join("emptybin");
@@ -399,14 +406,14 @@ pub fn run_scn(scn: &Scn, scratch: &Path, tag: &str) -> RunOut {
     env.push(("HOME".into(), "/root".into()));
     let mut args: Vec<String> = vec!["--no-banner".into(), "--color".into(), "never".into(), "test".into()];
     args.extend(scn.flags.iter().cloned());
-    args.push(scn.path_arg.clone());
-    let r = world::run_proc(&world::cli_path(), &args, &root, &env, if real { 1_200_000 } else { 120_000 });
+    args.push(if scn.path_arg == "." { format!("{}proj", scn.root_prefix) } else { format!("{}proj/{}", scn.root_prefix, scn.path_arg) });
+    let r = world::run_proc(&world::cli_path(), &args, &cwd, &env, if real { 1_200_000 } else { 120_000 });
     if let Some(e) = &r.spawn_error {
         simcore::harness_error(&format!("cannot spawn incan-cli: {e}"));
     }
     if real {
         // keep the generated harnesses for the model comparison
-        return real_cargo_out(scn, &root, r);
+        return real_cargo_out(scn, &cwd, r);
     }
     let stdout = r.out_str();
     let stderr = r.err_str();
@@ -415,7 +422,7 @@ pub fn run_scn(scn: &Scn, scratch: &Path, tag: &str) -> RunOut {
         .lines()
         .filter_map(|l| serde_json::from_str(l).ok())
         .collect();
-    let _ = std::fs::remove_dir_all(&root);
+    let _ = std::fs::remove_dir_all(&cwd);
     let _ = std::fs::remove_file(&journal);
     let _ = std::fs::remove_file(&scenario);
 
@@ -678,6 +685,7 @@ pub fn calibration_scn() -> Scn {
         faults: BTreeMap::new(),
         no_cargo: false,
         order: vec![0],
+        root_prefix: String::new(),
     }
 }
 
@@ -819,6 +827,15 @@ fn minimise(scn: &Scn, fp: &str, scratch: &Path) -> Scn {
                     }
                 }
                 ti += 1;
+            }
+        }
+        if !cur.root_prefix.is_empty() && budget > 0 {
+            let mut c = cur.clone();
+            c.root_prefix = String::new();
+            budget -= 1;
+            if still(&c) {
+                cur = c;
+                progress = true;
             }
         }
         // extra files and flags
